@@ -621,6 +621,19 @@ theorem tie_stmtsTarfs_Chmod : Generated.stmtsTarfs_Chmod = (["anode, err := m.g
   "if err != nil { return err }",
   "anode.mode = perm | (anode.mode & os.ModeType)",
   "return nil"] : List String) := by rfl
+/-- the helper the model's `dotName` mirrors, the methods that consult it before entering a node into a
+directory (every creating method; `MkdirAll` rejects `..` components and skips `.` in its own loop), and
+the one place that refuses a directory as the old name of a hard link -/
+theorem tie_isDotName_memfs : Generated.stmtsMemfs_isDotName =
+    (["return base == \".\" || base == \"..\" || base == pathSep"] : List String) := by rfl
+theorem tie_isDotName_tarfs : Generated.stmtsTarfs_isDotName =
+    (["return base == \".\" || base == \"..\" || base == pathSep"] : List String) := by rfl
+theorem tie_dotGuarded_memfs : Generated.dotGuardedMemfs =
+    (["Mkdir", "openFile", "Mknod", "Symlink", "Link"] : List String) := by rfl
+theorem tie_dotGuarded_tarfs : Generated.dotGuardedTarfs =
+    (["Mkdir", "openFile", "Mknod", "Symlink", "link", "writeHeader"] : List String) := by rfl
+theorem tie_linkRefusesDir_memfs : Generated.linkRefusesDirMemfs = (["Link"] : List String) := by rfl
+theorem tie_linkRefusesDir_tarfs : Generated.linkRefusesDirTarfs = (["link"] : List String) := by rfl
 theorem tie_subJoins : Generated.subJoins = (["Open",
   "OpenReaderAt",
   "OpenFile",
